@@ -709,11 +709,73 @@ impl Run {
             }
             if let Some((sub, case, limit)) = hit {
                 let case: Value = serde_json::from_str(&case).unwrap_or(Value::Null);
+                // A verdict needs a reproducible case: the same case is run again on its own (fresh process, same deadline), up to
+                // two times. A real hang (a loop that does not advance, a dead-lock on the default schedule) hangs again or fails;
+                // a case that only stalled once (free-running OS threads, a starved machine) passes: it is then reported as NOT
+                // JUDGED (cap, exhaustive=false), not as a violation.
+                if !me.is_replay() && std::env::var_os("VERIF_NO_HANG_RETRY").is_none() && !me.hang_reproduces(&sub, &case, limit) {
+                    me.cap_hit(format!(
+                        "one case of sub-check {sub} was still running after {:.0}s but finished normally when run again on its own (twice): not judged, run stopped there; case {}",
+                        limit.as_secs_f64(),
+                        case.to_string().chars().take(300).collect::<String>()
+                    ));
+                    me.finish();
+                }
                 me.record_violation(&sub, &case, format!("hang: case still running after {:.1}s (deadline)", limit.as_secs_f64()));
                 me.cap_hit("run stopped at the first hanging case");
                 me.finish();
             }
         });
+    }
+
+    /// Run the case of a watchdog hit again in a process of its own. True = it hangs or fails again (or cannot be re-run).
+    fn hang_reproduces(&self, sub: &str, case: &Value, limit: Duration) -> bool {
+        let Ok(exe) = std::env::current_exe() else { return true };
+        let dir = self.root.join("replays").join(self.id);
+        let _ = std::fs::create_dir_all(&dir);
+        let path = dir.join(format!("hang-retry-{}.json", std::process::id()));
+        let body = json!({
+            "property": self.id, "sub": sub, "case": case, "message": "hang: retry",
+            "tier": if self.tier == Tier::Quick {"quick"} else {"thorough"}, "seed": self.seed,
+        });
+        if std::fs::write(&path, serde_json::to_string_pretty(&body).unwrap()).is_err() {
+            return true;
+        }
+        let mut reproduced = false;
+        for _ in 0..2 {
+            let child = std::process::Command::new(&exe)
+                .arg(self.id)
+                .arg("--replay")
+                .arg(&path)
+                .env("VERIF_NO_HANG_RETRY", "1")
+                .stdin(std::process::Stdio::null())
+                .stdout(std::process::Stdio::null())
+                .stderr(std::process::Stdio::null())
+                .spawn();
+            let Ok(mut child) = child else {
+                reproduced = true;
+                break;
+            };
+            let start = Instant::now();
+            let status = loop {
+                match child.try_wait() {
+                    Ok(Some(st)) => break Some(st),
+                    Ok(None) if start.elapsed() > limit * 2 + Duration::from_secs(30) => {
+                        let _ = child.kill();
+                        let _ = child.wait();
+                        break None;
+                    }
+                    Ok(None) => std::thread::sleep(Duration::from_millis(100)),
+                    Err(_) => break None,
+                }
+            };
+            if status.map_or(true, |st| st.code() != Some(0)) {
+                reproduced = true;
+                break;
+            }
+        }
+        let _ = std::fs::remove_file(&path);
+        reproduced
     }
 
     /// Write evidence, print verdict lines, exit.
